@@ -39,6 +39,9 @@ func (u *Unit) ghost(name string, ret Sort, args ...T) T {
 
 func (u *Unit) stubFunc(st *State, instr ssa.Instruction, full string, args []Value, sig *types.Signature, cc *ssa.CallCommon) ([]callRes, bool) {
 	lowerArg := func(i int) T { return u.lower(st, args[i], cc.Args[i].Type()) }
+	if full == "(*database/sql.Row).Scan" || full == "(*database/sql.Rows).Scan" {
+		return u.scanStub(st, instr, lowerArg(0), args[1:]), true
+	}
 	switch full {
 	case "fmt.Errorf":
 		u.note("stub fmt.Errorf: returns a non-nil error; message text not modelled")
